@@ -572,7 +572,7 @@ class ServerProxy(XMLServerProxy):
             schema = schema[len("unix+") :]
             use_unix = True
 
-        if schema not in ("http", "https"):
+        if schema not in ("http", "https") or (use_unix and schema != "http"):
             _logger.error(
                 "jsonrpclib only support http(s) URIs, not %s", schema
             )
